@@ -8,10 +8,10 @@ From Verif Require Import GrammarProofsParen GrammarProofsBrace GrammarProofsHea
 From Verif Require Import GrammarAllProofsSel.
 Open Scope nat_scope.
 
-(* ---------- suffixes of inner sequences ---------- *)
+(* ---------- suffixes of inner sequences / of parameter lists with flat brace groups ---------- *)
 Definition closer (t : token) : bool := is_rparen t || is_symbol t semicolon.
-(* an inner sequence followed by ")" or ";" (or nothing) *)
-Definition isuf (w : list token) : Prop := exists g B, w = g ++ B /\ inner g /\ hd_ok closer B.
+(* a (b)inner sequence followed by ")" or ";" (or nothing) *)
+Definition isuf (w : list token) : Prop := exists ok g B, w = g ++ B /\ binner ok g /\ hd_ok closer B.
 
 Lemma closer_inv t : closer t = true ->
   stop_tok t = true /\ is_lbrace t = false /\ is_lparen t = false /\ is_symbol t s_arrow = false /\ is_name t = false.
@@ -40,28 +40,33 @@ Proof. intros H. unfold closer, is_rparen. rewrite !(keyword_not_symbol _ _ H). 
 Lemma operator_not_closer t s : is_operator t s = true -> closer t = false.
 Proof. intros H. unfold closer, is_rparen. rewrite !(operator_not_symbol _ _ _ H). reflexivity. Qed.
 
-Lemma isuf_intro g B : inner g -> hd_ok closer B -> isuf (g ++ B).
-Proof. intros Hg HB. exists g, B. auto. Qed.
+Lemma isuf_intro_b ok g B : binner ok g -> hd_ok closer B -> isuf (g ++ B).
+Proof. intros Hg HB. exists ok, g, B. auto. Qed.
 
-Lemma isuf_tail x w : isuf (x :: w) -> is_lparen x = false -> closer x = false -> isuf w.
+Lemma isuf_intro g B : inner g -> hd_ok closer B -> isuf (g ++ B).
+Proof. intros Hg HB. apply (isuf_intro_b false); [apply inner_binner; exact Hg | exact HB]. Qed.
+
+Lemma isuf_tail x w : isuf (x :: w) -> is_lparen x = false -> is_lbrace x = false -> closer x = false -> isuf w.
 Proof.
-  intros (g & B & E & Hg & HB) Hlp Hcl. destruct Hg as [|t r Ht Hr|o g c r Ho Hg Hc Hr].
+  intros (ok & g & B & E & Hg & HB) Hlp Hlb Hcl.
+  destruct Hg as [ok|ok t r Ht Hr|ok o g c r Ho Hg Hc Hr|o flat c r Ho Hflat Hc Hr].
   - cbn [app] in E. subst B. cbn [hd_ok] in HB. congruence.
-  - cbn [app] in E. injection E as -> ->. apply isuf_intro; assumption.
+  - cbn [app] in E. injection E as -> ->. apply (isuf_intro_b ok); assumption.
+  - cbn [app] in E. injection E as -> _. congruence.
   - cbn [app] in E. injection E as -> _. congruence.
 Qed.
 
 Lemma isuf_tail_name x w : isuf (x :: w) -> is_name x = true -> isuf w.
 Proof.
-  intros H Hn. apply (isuf_tail x w H); [apply (name_not_symbol _ _ Hn) | apply name_not_closer; exact Hn].
+  intros H Hn. apply (isuf_tail x w H); [apply (name_not_symbol _ _ Hn) | apply (name_not_symbol _ _ Hn) | apply name_not_closer; exact Hn].
 Qed.
 Lemma isuf_tail_keyword x w : isuf (x :: w) -> is_keyword x = true -> isuf w.
 Proof.
-  intros H Hn. apply (isuf_tail x w H); [apply (keyword_not_symbol _ _ Hn) | apply keyword_not_closer; exact Hn].
+  intros H Hn. apply (isuf_tail x w H); [apply (keyword_not_symbol _ _ Hn) | apply (keyword_not_symbol _ _ Hn) | apply keyword_not_closer; exact Hn].
 Qed.
 Lemma isuf_tail_operator x w s : isuf (x :: w) -> is_operator x s = true -> isuf w.
 Proof.
-  intros H Hn. apply (isuf_tail x w H); [apply (operator_not_symbol _ _ _ Hn) | eapply operator_not_closer; exact Hn].
+  intros H Hn. apply (isuf_tail x w H); [apply (operator_not_symbol _ _ _ Hn) | apply (operator_not_symbol _ _ _ Hn) | eapply operator_not_closer; exact Hn].
 Qed.
 
 Lemma isuf_skipn g : inner g -> forall B, hd_ok closer B -> forall k, k <= length g -> isuf (skipn k (g ++ B)).
@@ -81,27 +86,104 @@ Proof.
         apply IHr; [exact HB|]. revert Hk. norm_len. lia.
 Qed.
 
-(* the run of groups at the head of such a suffix ends at a token that is not "{"; if it ends at "=>",
-   the next token is not "{" either *)
-Lemma isuf_run v : isuf v ->
+(* ---------- the run of groups, braces being ordinary tokens ---------- *)
+Lemma lbrace_not_rparen t : is_lbrace t = true -> is_rparen t = false.
+Proof. intros H. apply (symbol_other t lbrace); [exact H | discriminate]. Qed.
+Lemma rbrace_not_rparen t : is_rbrace t = true -> is_rparen t = false.
+Proof. intros H. apply (symbol_other t rbrace); [exact H | discriminate]. Qed.
+
+Lemma groups_len_plains ps : forallb plain ps = true -> forall (d : Z) rest, (0 < d)%Z ->
+  groups_len (ps ++ rest) d = length ps + groups_len rest d.
+Proof.
+  induction ps as [|t ps IH]; intros H d rest Hd; [reflexivity|].
+  cbn [forallb] in H. apply andb_prop in H as [Ht H]. apply plain_inv in Ht as (H1 & H2 & _ & _).
+  cbn [app]. rewrite groups_len_inside_plain by assumption. rewrite IH by assumption. reflexivity.
+Qed.
+
+Lemma groups_len_binner ok g : binner ok g -> forall (d : Z) rest, (0 < d)%Z ->
+  groups_len (g ++ rest) d = length g + groups_len rest d.
+Proof.
+  induction 1 as [ok|ok t r Ht Hr IH|ok o g c r Ho Hg IHg Hc Hr IHr|o flat c r Ho Hflat Hc Hr IH]; intros d rest Hd.
+  - reflexivity.
+  - apply plain_inv in Ht as (H1 & H2 & _ & _). cbn [app].
+    rewrite groups_len_inside_plain by assumption. rewrite IH by assumption. reflexivity.
+  - replace ((o :: g ++ c :: r) ++ rest) with (o :: g ++ c :: (r ++ rest)) by (norm_app; reflexivity).
+    rewrite groups_len_inside_lparen by assumption.
+    rewrite IHg by lia. rewrite groups_len_inside_rparen by (assumption || lia).
+    replace (d + 1 - 1)%Z with d by lia. rewrite IHr by assumption. norm_len. lia.
+  - replace ((o :: flat ++ c :: r) ++ rest) with (o :: flat ++ c :: (r ++ rest)) by (norm_app; reflexivity).
+    rewrite (groups_len_inside_plain o _ d Hd (lbrace_not_lparen o Ho) (lbrace_not_rparen o Ho)).
+    rewrite (groups_len_plains flat Hflat) by assumption.
+    rewrite (groups_len_inside_plain c _ d Hd (rbrace_not_lparen c Hc) (rbrace_not_rparen c Hc)).
+    rewrite IH by assumption. norm_len. lia.
+Qed.
+
+(* once a ")" has occurred at this depth (flag false), no brace follows at this depth *)
+Lemma bfalse_head ok r : binner ok r -> ok = false -> forall B, hd_ok closer B -> sym_at (r ++ B) 0 lbrace = false.
+Proof.
+  intros H. destruct H as [ok|ok t r Ht Hr|ok o g c r Ho Hg Hc Hr|o flat c r Ho Hflat Hc Hr]; intros Hok B HB.
+  - cbn [app]. destruct B as [|b B]; [reflexivity|]. cbn [hd_ok] in HB. apply closer_inv in HB. unfold sym_at. cbn [nth_error]. apply HB.
+  - apply plain_inv in Ht. unfold sym_at. cbn [app nth_error]. apply Ht.
+  - unfold sym_at. cbn [app nth_error]. apply lparen_not_lbrace. exact Ho.
+  - discriminate.
+Qed.
+
+Lemma bfalse_run ok r : binner ok r -> ok = false -> forall B, hd_ok closer B ->
+  groups_len (r ++ B) 0 <= length r /\
+  sym_at (r ++ B) (groups_len (r ++ B) 0) lbrace = false /\
+  (sym_at (r ++ B) (groups_len (r ++ B) 0) s_arrow = true -> sym_at (r ++ B) (S (groups_len (r ++ B) 0)) lbrace = false).
+Proof.
+  induction 1 as [ok|ok t r Ht Hr IH|ok o g c r Ho Hg IHg Hc Hr IHr|o flat c r Ho Hflat Hc Hr IH]; intros Hok B HB.
+  - cbn [app length]. destruct B as [|b B]; [repeat split; auto; discriminate|].
+    cbn [hd_ok] in HB. apply closer_inv in HB as (_ & H1 & H2 & H3 & _).
+    rewrite groups_len_outside_stop by exact H2. unfold sym_at. cbn [nth_error]. repeat split; [lia | exact H1 | congruence].
+  - apply plain_inv in Ht as (H1 & _ & H3 & _). cbn [app].
+    rewrite groups_len_outside_stop by exact H1. split; [lia|]. split; [unfold sym_at; cbn [nth_error]; exact H3|].
+    intros _. change (sym_at (t :: r ++ B) 1 lbrace) with (sym_at (r ++ B) 0 lbrace).
+    apply (bfalse_head ok r Hr Hok B HB).
+  - replace ((o :: g ++ c :: r) ++ B) with (o :: g ++ c :: (r ++ B)) by (norm_app; reflexivity).
+    rewrite groups_len_outside_lparen by exact Ho.
+    rewrite (groups_len_binner true g Hg 1%Z) by lia.
+    rewrite groups_len_inside_rparen by (assumption || lia).
+    replace (1 - 1)%Z with 0%Z by lia.
+    destruct (IHr eq_refl B HB) as (Hle & Hsym & Harr). set (e := groups_len (r ++ B) 0) in *.
+    replace (S (length g + S e)) with (length (o :: g ++ [c]) + e) by (norm_len; lia).
+    replace (S (length (o :: g ++ [c]) + e)) with (length (o :: g ++ [c]) + S e) by lia.
+    replace (o :: g ++ c :: r ++ B) with ((o :: g ++ [c]) ++ (r ++ B)) by (norm_app; reflexivity).
+    rewrite !sym_at_shift. split; [norm_len; lia|]. split; assumption.
+  - discriminate.
+Qed.
+
+(* the run of groups at the head of a suffix that starts with "(" ends at a token that is not "{"; if it ends at
+   "=>", the next token is not "{" either *)
+Lemma isuf_lparen_shape v : isuf v -> sym_at v 0 lparen = true ->
+  exists o g c r B, v = (o :: g ++ [c]) ++ (r ++ B) /\ is_lparen o = true /\ binner true g /\ is_rparen c = true /\
+                    binner false r /\ hd_ok closer B /\
+                    groups_len v 0 = length (o :: g ++ [c]) + groups_len (r ++ B) 0.
+Proof.
+  intros (ok & g & B & -> & Hg & HB) Hlp.
+  destruct Hg as [ok|ok t r Ht Hr|ok o g c r Ho Hg Hc Hr|o flat c r Ho Hflat Hc Hr].
+  - cbn [app] in Hlp. destruct B as [|b B]; [discriminate|]. cbn [hd_ok] in HB. apply closer_inv in HB as (_ & _ & H & _).
+    unfold sym_at in Hlp. cbn [nth_error] in Hlp. unfold is_lparen in H. congruence.
+  - apply plain_inv in Ht as (H & _). unfold sym_at in Hlp. cbn [app nth_error] in Hlp. unfold is_lparen in H. congruence.
+  - exists o, g, c, r, B. split; [norm_app; reflexivity|]. repeat (split; [assumption|]).
+    replace ((o :: g ++ c :: r) ++ B) with (o :: g ++ c :: (r ++ B)) by (norm_app; reflexivity).
+    rewrite groups_len_outside_lparen by exact Ho.
+    rewrite (groups_len_binner true g Hg 1%Z) by lia.
+    rewrite groups_len_inside_rparen by (assumption || lia).
+    replace (1 - 1)%Z with 0%Z by lia. norm_len. lia.
+  - apply lbrace_not_lparen in Ho. unfold sym_at in Hlp. cbn [app nth_error] in Hlp. unfold is_lparen in Ho. congruence.
+Qed.
+
+Lemma isuf_run v : isuf v -> sym_at v 0 lparen = true ->
   sym_at v (groups_len v 0) lbrace = false /\
   (sym_at v (groups_len v 0) s_arrow = true -> sym_at v (S (groups_len v 0)) lbrace = false).
 Proof.
-  intros (g & B & -> & Hg & HB).
-  destruct (inner_run_not_lbrace g Hg B (closer_stop B HB)) as [Hle Hsym]. split; [exact Hsym|].
-  set (e := groups_len (g ++ B) 0) in *. intros Ha.
-  pose proof (inner_brace_free g Hg) as Hbf.
-  assert (HBhd : forall m, m = length g -> sym_at (g ++ B) m lbrace = false /\ sym_at (g ++ B) m s_arrow = false).
-  { intros m ->. unfold sym_at. rewrite nth_error_app2 by lia. rewrite Nat.sub_diag.
-    destruct B as [|b B]; [split; reflexivity|]. cbn [nth_error hd_ok] in *.
-    apply closer_inv in HB as (_ & H1 & _ & H2 & _). split; assumption. }
-  destruct (Nat.eq_dec e (length g)) as [Ee|Ne].
-  - destruct (HBhd e Ee) as [_ H2]. congruence.
-  - destruct (Nat.eq_dec (S e) (length g)) as [Ee|Ne'].
-    + apply (HBhd (S e) Ee).
-    + unfold sym_at. rewrite nth_error_app1 by lia.
-      destruct (nth_error g (S e)) as [t|] eqn:Et; [|reflexivity].
-      apply nth_error_In in Et. unfold brace_free in Hbf. rewrite Forall_forall in Hbf. apply Hbf in Et. apply Et.
+  intros Hv Hlp. destruct (isuf_lparen_shape v Hv Hlp) as (o & g & c & r & B & -> & Ho & Hg & Hc & Hr & HB & ->).
+  destruct (bfalse_run false r Hr eq_refl B HB) as (_ & H1 & H2).
+  replace (S (length (o :: g ++ [c]) + groups_len (r ++ B) 0))
+    with (length (o :: g ++ [c]) + S (groups_len (r ++ B) 0)) by lia.
+  rewrite !sym_at_shift. split; assumption.
 Qed.
 
 (* ---------- the candidate functions at the head of a list ---------- *)
@@ -122,6 +204,39 @@ Lemma ge0_groups gs t R : groups gs -> is_lparen t = false -> ge0 (gs ++ t :: R)
 Proof.
   intros Hgs Ht. pose proof (groups_len_groups gs Hgs t R Ht) as Hrun.
   destruct (groups_head gs Hgs) as (p & r & -> & Hp). unfold ge0. cbn [app] in *. rewrite Hp, Hrun. reflexivity.
+Qed.
+
+Lemma groups_len_bgroups gs : bgroups gs -> forall t rest, is_lparen t = false ->
+  groups_len (gs ++ t :: rest) 0 = length gs.
+Proof.
+  induction 1 as [g Hg|g r Hg Hr IH]; intros t rest Ht.
+  - destruct Hg as [o g' c Ho Hg' Hc].
+    replace ((o :: g' ++ [c]) ++ t :: rest) with (o :: g' ++ c :: t :: rest) by (norm_app; reflexivity).
+    rewrite groups_len_outside_lparen by exact Ho.
+    rewrite (groups_len_binner true g' Hg' 1%Z) by lia.
+    rewrite groups_len_inside_rparen by (assumption || lia).
+    replace (1 - 1)%Z with 0%Z by lia. rewrite groups_len_outside_stop by exact Ht.
+    norm_len. lia.
+  - destruct Hg as [o g' c Ho Hg' Hc].
+    replace (((o :: g' ++ [c]) ++ r) ++ t :: rest) with (o :: g' ++ c :: (r ++ t :: rest)) by (norm_app; reflexivity).
+    rewrite groups_len_outside_lparen by exact Ho.
+    rewrite (groups_len_binner true g' Hg' 1%Z) by lia.
+    rewrite groups_len_inside_rparen by (assumption || lia).
+    replace (1 - 1)%Z with 0%Z by lia. rewrite IH by exact Ht.
+    norm_len. lia.
+Qed.
+
+Lemma bgroups_head gs : bgroups gs -> exists o r, gs = o :: r /\ is_lparen o = true.
+Proof.
+  induction 1 as [g Hg|g r Hg Hr IH].
+  - destruct Hg as [o g' c Ho _ _]. exists o, (g' ++ [c]). split; [reflexivity | exact Ho].
+  - destruct Hg as [o g' c Ho _ _]. exists o, ((g' ++ [c]) ++ r). split; [reflexivity | exact Ho].
+Qed.
+
+Lemma ge0_bgroups gs t R : bgroups gs -> is_lparen t = false -> ge0 (gs ++ t :: R) = Some (length gs).
+Proof.
+  intros Hgs Ht. pose proof (groups_len_bgroups gs Hgs t R Ht) as Hrun.
+  destruct (bgroups_head gs Hgs) as (p & r & -> & Hp). unfold ge0. cbn [app] in *. rewrite Hp, Hrun. reflexivity.
 Qed.
 
 Lemma cand_plain_0 t W :
@@ -181,34 +296,39 @@ Lemma follow_brace_S t W j : follow_brace (t :: W) (S j) = follow_brace W j.
 Proof. reflexivity. Qed.
 
 (* run / arrow tail after a prefix *)
-Lemma groups_end_pre pre v j : groups_end (pre ++ v) (length pre) = Some j -> j = length pre + groups_len v 0.
+Lemma groups_end_pre pre v j : groups_end (pre ++ v) (length pre) = Some j ->
+  j = length pre + groups_len v 0 /\ sym_at v 0 lparen = true.
 Proof.
   pose proof (groups_end_shift pre v 0) as S0. rewrite Nat.add_0_r in S0. rewrite S0.
   unfold groups_end. destruct (sym_at v 0 lparen); [|discriminate].
-  cbn [option_map skipn Nat.add]. intros [= <-]. reflexivity.
+  cbn [option_map skipn Nat.add]. intros [= <-]. split; reflexivity.
 Qed.
 
 Lemma run_tail pre v j : isuf v -> groups_end (pre ++ v) (length pre) = Some j -> sym_at (pre ++ v) j lbrace = false.
 Proof.
-  intros Hv E. apply groups_end_pre in E. subst j. rewrite sym_at_shift. apply (isuf_run _ Hv).
+  intros Hv E. apply groups_end_pre in E as [-> Hlp]. rewrite sym_at_shift. apply (isuf_run _ Hv Hlp).
 Qed.
 
 Lemma arrow_tail pre v j : isuf v -> groups_end (pre ++ v) (length pre) = Some j ->
   sym_at (pre ++ v) j s_arrow = true -> sym_at (pre ++ v) (S j) lbrace = false.
 Proof.
-  intros Hv E. apply groups_end_pre in E. subst j. rewrite sym_at_shift.
+  intros Hv E. apply groups_end_pre in E as [-> Hlp]. rewrite sym_at_shift.
   replace (S (length pre + groups_len v 0)) with (length pre + S (groups_len v 0)) by lia.
-  rewrite sym_at_shift. apply (isuf_run _ Hv).
+  rewrite sym_at_shift. apply (isuf_run _ Hv Hlp).
 Qed.
 
 (* follow-up tests rejected at the end of the run of groups at the head of such a suffix *)
-Definition isuf_rejects (f : follow_fn) : Prop := forall v, isuf v -> f v (groups_len v 0) = false.
+Definition isuf_rejects (f : follow_fn) : Prop :=
+  forall v, isuf v -> sym_at v 0 lparen = true -> f v (groups_len v 0) = false.
 
 Lemma isuf_rejects_brace : isuf_rejects follow_brace.
-Proof. intros v Hv. unfold follow_brace. apply (isuf_run v Hv). Qed.
+Proof. intros v Hv Hlp. unfold follow_brace. apply (isuf_run v Hv Hlp). Qed.
 
-Lemma ge0_some W e : ge0 W = Some e -> e = groups_len W 0.
-Proof. unfold ge0. destruct W as [|x W]; [discriminate|]. destruct (is_lparen x); [|discriminate]. intros [= <-]. reflexivity. Qed.
+Lemma ge0_some W e : ge0 W = Some e -> e = groups_len W 0 /\ sym_at W 0 lparen = true.
+Proof.
+  unfold ge0, sym_at. destruct W as [|x W]; [discriminate|]. cbn [nth_error]. unfold is_lparen.
+  destruct (is_symbol x lparen); [|discriminate]. intros [= <-]. split; reflexivity.
+Qed.
 
 Lemma fshift_S f t W j : fshift f -> f (t :: W) (S j) = f W j.
 Proof. intros Hf. exact (Hf [t] W j). Qed.
@@ -220,7 +340,7 @@ Proof.
   rewrite cand_plain_0 in E. destruct (is_name t) eqn:En; [|discriminate].
   pose proof (isuf_tail_name t W Hw En) as HW.
   destruct (ge0 W) as [e|] eqn:Ee; [|discriminate]. injection E as <- <-.
-  rewrite (fshift_S f t W e Hf). rewrite (ge0_some W e Ee). apply Hr. exact HW.
+  rewrite (fshift_S f t W e Hf). destruct (ge0_some W e Ee) as [-> Hlp]. apply Hr; assumption.
 Qed.
 
 Lemma plain_not_name f t W : is_name t = false -> acc cand_plain f (t :: W) 0 = None.
@@ -247,7 +367,7 @@ Proof.
     destruct (is_name x) eqn:En; [|discriminate].
     pose proof (isuf_tail_name x W' HW En) as HW'.
     destruct (ge0 W') as [e|] eqn:Ee; [|discriminate]. cbn [shift1] in E. injection E as <- <-.
-    rewrite !(fshift_S f _ _ _ Hf). rewrite (ge0_some W' e Ee). apply Hr. exact HW'.
+    rewrite !(fshift_S f _ _ _ Hf). destruct (ge0_some W' e Ee) as [-> Hlp]. apply Hr; assumption.
   - rewrite (acc_same cand_function cand_plain) by (rewrite cand_function_0, Ek; reflexivity).
     apply isuf_plain; assumption.
 Qed.
@@ -712,6 +832,39 @@ Section Pieces.
     - apply (no_acc_app c f (g_c _ _ _ G) (g_f _ _ _ G)); [apply group_no_acc; exact Hg | apply IH].
   Qed.
 
+  (* parameter lists with flat brace groups *)
+  Lemma binner_no_acc ok g : binner ok g -> forall B, hd_ok closer B -> no_acc c f g B.
+  Proof.
+    induction 1 as [ok|ok t r Ht Hr IH|ok o g c0 r Ho Hg IHg Hc Hr IHr|o flat c0 r Ho Hflat Hc Hr IH]; intros B HB.
+    - apply no_acc_nil.
+    - apply (no_acc_cons c f (g_c _ _ _ G) (g_f _ _ _ G)); [|apply IH; exact HB].
+      apply (g_isuf _ _ _ G). apply (isuf_intro_b ok (t :: r) B); [apply bi_plain; assumption | exact HB].
+    - change (o :: g ++ c0 :: r) with ([o] ++ g ++ [c0] ++ r).
+      apply (no_acc_app c f (g_c _ _ _ G) (g_f _ _ _ G)); [eapply symbol_no_acc; exact Ho|].
+      apply (no_acc_app c f (g_c _ _ _ G) (g_f _ _ _ G)).
+      + apply IHg. cbn [app hd_ok]. apply rparen_closer. exact Hc.
+      + apply (no_acc_app c f (g_c _ _ _ G) (g_f _ _ _ G)); [eapply symbol_no_acc; exact Hc | apply IHr; exact HB].
+    - replace (o :: flat ++ c0 :: r) with (([] ++ o :: flat ++ [c0]) ++ r) by (norm_app; reflexivity).
+      apply (no_acc_app c f (g_c _ _ _ G) (g_f _ _ _ G)); [|apply IH; exact HB].
+      apply (init_front_no_acc_gen c f (g_c _ _ _ G) (g_f _ _ _ G) (g_chain _ _ _ G)); try assumption. reflexivity.
+  Qed.
+
+  Lemma bgroup_no_acc g B : bgroup g -> no_acc c f g B.
+  Proof.
+    intros [o g' c0 Ho Hg Hc].
+    change (o :: g' ++ [c0]) with ([o] ++ g' ++ [c0]).
+    apply (no_acc_app c f (g_c _ _ _ G) (g_f _ _ _ G)); [eapply symbol_no_acc; exact Ho|].
+    apply (no_acc_app c f (g_c _ _ _ G) (g_f _ _ _ G)); [|eapply symbol_no_acc; exact Hc].
+    apply (binner_no_acc true); [exact Hg|]. cbn [app hd_ok]. apply rparen_closer. exact Hc.
+  Qed.
+
+  Lemma bgroups_no_acc gs B : bgroups gs -> no_acc c f gs B.
+  Proof.
+    intros H. revert B. induction H as [g Hg|g r Hg Hr IH]; intros B.
+    - apply bgroup_no_acc; exact Hg.
+    - apply (no_acc_app c f (g_c _ _ _ G) (g_f _ _ _ G)); [apply bgroup_no_acc; exact Hg | apply IH].
+  Qed.
+
   Lemma stmt_no_acc s B : simple_stmt s -> no_acc c f s B.
   Proof.
     intros (body & semi & -> & Hb & Hs).
@@ -762,16 +915,16 @@ End Pieces.
 Lemma acc_intro c f w i n j : c w i = Some (n, j) -> f w j = true -> acc c f w i = Some (n, j).
 Proof. intros H1 H2. unfold acc. rewrite H1, H2. reflexivity. Qed.
 
-Lemma plain_head_f f nm gs R : is_name nm = true -> groups gs -> hd_ok nlp R -> R <> [] ->
+Lemma plain_head_f f nm gs R : is_name nm = true -> bgroups gs -> hd_ok nlp R -> R <> [] ->
   f (nm :: gs ++ R) (S (length gs)) = true ->
   acc cand_plain f (nm :: gs ++ R) 0 = Some (0, S (length gs)).
 Proof.
   intros Hnm Hgs HR Hne Hfol. apply acc_intro; [|exact Hfol].
   destruct R as [|t R]; [congruence|]. cbn [hd_ok] in HR. unfold nlp in HR. apply negb_true_iff in HR.
-  rewrite cand_plain_0, Hnm, (ge0_groups gs t R Hgs HR). reflexivity.
+  rewrite cand_plain_0, Hnm, (ge0_bgroups gs t R Hgs HR). reflexivity.
 Qed.
 
-Lemma method_head_f f nm gs R : is_name nm = true -> groups gs -> hd_ok nlp R -> R <> [] ->
+Lemma method_head_f f nm gs R : is_name nm = true -> bgroups gs -> hd_ok nlp R -> R <> [] ->
   f (nm :: gs ++ R) (S (length gs)) = true ->
   acc cand_function f (nm :: gs ++ R) 0 = Some (0, S (length gs)).
 Proof.
@@ -780,13 +933,13 @@ Proof.
   apply plain_head_f; assumption.
 Qed.
 
-Lemma function_head_f f fk nm gs R : kw_is fk s_function = true -> is_name nm = true -> groups gs -> hd_ok nlp R -> R <> [] ->
+Lemma function_head_f f fk nm gs R : kw_is fk s_function = true -> is_name nm = true -> bgroups gs -> hd_ok nlp R -> R <> [] ->
   f (fk :: nm :: gs ++ R) (S (S (length gs))) = true ->
   acc cand_function f (fk :: nm :: gs ++ R) 0 = Some (1, S (S (length gs))).
 Proof.
   intros Hfk Hnm Hgs HR Hne Hfol. apply acc_intro; [|exact Hfol].
   destruct R as [|t R]; [congruence|]. cbn [hd_ok] in HR. unfold nlp in HR. apply negb_true_iff in HR.
-  rewrite cand_function_0, Hfk, cand_plain_0, Hnm, (ge0_groups gs t R Hgs HR). reflexivity.
+  rewrite cand_function_0, Hfk, cand_plain_0, Hnm, (ge0_bgroups gs t R Hgs HR). reflexivity.
 Qed.
 
 Lemma lbrace_nlp o B : is_lbrace o = true -> hd_ok nlp (o :: B) /\ o :: B <> [].
@@ -795,18 +948,18 @@ Proof. intros Ho. split; [|discriminate]. cbn [hd_ok]. unfold nlp. rewrite (lbra
 Lemma plain_head nm gs o B : is_name nm = true -> groups gs -> is_lbrace o = true ->
   acc cand_plain follow_brace (nm :: gs ++ o :: B) 0 = Some (0, S (length gs)).
 Proof.
-  intros Hnm Hgs Ho. destruct (lbrace_nlp o B Ho) as [H1 H2]. apply plain_head_f; try assumption.
+  intros Hnm Hgs Ho. apply groups_bgroups in Hgs. destruct (lbrace_nlp o B Ho) as [H1 H2]. apply plain_head_f; try assumption.
   rewrite follow_brace_S. unfold follow_brace. rewrite sym_at_app_hd. exact Ho.
 Qed.
 
-Lemma method_head nm gs o B : is_name nm = true -> groups gs -> is_lbrace o = true ->
+Lemma method_head nm gs o B : is_name nm = true -> bgroups gs -> is_lbrace o = true ->
   acc cand_function follow_brace (nm :: gs ++ o :: B) 0 = Some (0, S (length gs)).
 Proof.
   intros Hnm Hgs Ho. destruct (lbrace_nlp o B Ho) as [H1 H2]. apply method_head_f; try assumption.
   rewrite follow_brace_S. unfold follow_brace. rewrite sym_at_app_hd. exact Ho.
 Qed.
 
-Lemma function_head fk nm gs o B : kw_is fk s_function = true -> is_name nm = true -> groups gs -> is_lbrace o = true ->
+Lemma function_head fk nm gs o B : kw_is fk s_function = true -> is_name nm = true -> bgroups gs -> is_lbrace o = true ->
   acc cand_function follow_brace (fk :: nm :: gs ++ o :: B) 0 = Some (1, S (S (length gs))).
 Proof.
   intros Hfk Hnm Hgs Ho. destruct (lbrace_nlp o B Ho) as [H1 H2]. apply function_head_f; try assumption.
@@ -817,7 +970,7 @@ Qed.
 Lemma arrow_nc_head nm eq mid gs arrow o B :
   is_name nm = true -> is_operator eq s_eq = true ->
   (mid = [] \/ exists ak, mid = [ak] /\ kw_is ak s_async = true) ->
-  groups gs -> is_symbol arrow s_arrow = true -> is_lbrace o = true ->
+  bgroups gs -> is_symbol arrow s_arrow = true -> is_lbrace o = true ->
   arrow_nc (nm :: eq :: mid ++ gs ++ arrow :: o :: B) = Some (0, S (2 + length mid + length gs)) /\
   sym_at (nm :: eq :: mid ++ gs ++ arrow :: o :: B) (S (2 + length mid + length gs)) lbrace = true.
 Proof.
@@ -825,14 +978,14 @@ Proof.
   assert (Hnl : is_lparen arrow = false) by (apply (symbol_other arrow s_arrow); [exact Har | discriminate]).
   assert (Hge : forall pre, groups_end (pre ++ gs ++ arrow :: o :: B) (length pre) = Some (length pre + length gs)).
   { intros pre. pose proof (groups_end_shift pre (gs ++ arrow :: o :: B) 0) as E. rewrite Nat.add_0_r in E.
-    rewrite E, groups_end_0, (ge0_groups gs arrow (o :: B) Hgs Hnl). cbn [option_map]. reflexivity. }
+    rewrite E, groups_end_0, (ge0_bgroups gs arrow (o :: B) Hgs Hnl). cbn [option_map]. reflexivity. }
   assert (Hsa : forall pre, sym_at (pre ++ gs ++ arrow :: o :: B) (length pre + length gs) s_arrow = true).
   { intros pre. rewrite sym_at_shift, sym_at_app_hd. exact Har. }
   assert (Hsb : forall pre, sym_at (pre ++ gs ++ arrow :: o :: B) (S (length pre + length gs)) lbrace = true).
   { intros pre. replace (S (length pre + length gs)) with (length pre + length (gs ++ [arrow])) by (norm_len; lia).
     rewrite sym_at_shift. replace (gs ++ arrow :: o :: B) with ((gs ++ [arrow]) ++ o :: B) by (norm_app; reflexivity).
     rewrite sym_at_app_hd. exact Ho. }
-  destruct (groups_head gs Hgs) as (p & r & Egs & Hp).
+  destruct (bgroups_head gs Hgs) as (p & r & Egs & Hp).
   destruct Hmid as [->|(ak & -> & Hak)].
   - cbn [app length Nat.add]. split.
     + unfold arrow_nc. change (name_at (nm :: eq :: gs ++ arrow :: o :: B) 0) with (is_name nm).
@@ -857,7 +1010,7 @@ Qed.
 Lemma arrow_head nm eq mid gs arrow o B :
   is_name nm = true -> is_operator eq s_eq = true ->
   (mid = [] \/ exists ak, mid = [ak] /\ kw_is ak s_async = true) ->
-  groups gs -> is_symbol arrow s_arrow = true -> is_lbrace o = true ->
+  bgroups gs -> is_symbol arrow s_arrow = true -> is_lbrace o = true ->
   acc cand_arrow follow_brace (nm :: eq :: mid ++ gs ++ arrow :: o :: B) 0 = Some (0, S (2 + length mid + length gs)).
 Proof.
   intros Hnm Heq Hmid Hgs Har Ho.
@@ -870,7 +1023,7 @@ Qed.
 Lemma const_arrow_head ck nm eq mid gs arrow o B :
   kw_is ck s_const = true -> is_name nm = true -> is_operator eq s_eq = true ->
   (mid = [] \/ exists ak, mid = [ak] /\ kw_is ak s_async = true) ->
-  groups gs -> is_symbol arrow s_arrow = true -> is_lbrace o = true ->
+  bgroups gs -> is_symbol arrow s_arrow = true -> is_lbrace o = true ->
   acc cand_arrow follow_brace (ck :: nm :: eq :: mid ++ gs ++ arrow :: o :: B) 0 = Some (1, S (S (2 + length mid + length gs))).
 Proof.
   intros Hck Hnm Heq Hmid Hgs Har Ho.
